@@ -21,6 +21,36 @@ func derivesFromParam(v ssa.Value, p *ssa.Parameter) bool {
 			return false
 		}
 		seen[v] = true
+		// through new helpers: a helper's parameter is what its callers pass, its result what it returns
+		if hp, ok := v.(*ssa.Parameter); ok {
+			for _, a := range helperArgs(hp) {
+				if walk(a) {
+					return true
+				}
+			}
+			return false
+		}
+		{
+			var call *ssa.Call
+			idx := 0
+			switch x := v.(type) {
+			case *ssa.Extract:
+				call, _ = x.Tuple.(*ssa.Call)
+				idx = x.Index
+			case *ssa.Call:
+				call = x
+			}
+			if call != nil {
+				if vals, ok := helperResults(call, idx); ok {
+					for _, e := range vals {
+						if walk(e) {
+							return true
+						}
+					}
+					return false
+				}
+			}
+		}
 		switch x := v.(type) {
 		case *ssa.Convert:
 			return walk(x.X)
